@@ -196,7 +196,7 @@ def hashCtx (c : Cfg) (cat : Cat) (draw : Nat) (fv : Int) : Res (String × Optio
       | .error e => .error e
       | .ok r => match r.cls with
         | none => .ok (d, none)
-        | some cls => (generateRounds cls draw fv).map (fun n => (d, some n))
+        | some cls => (generateChecked cls draw fv).map (fun n => (d, some n))
 
 inductive VauOut
   | fail                       -- (False, None)
